@@ -92,6 +92,7 @@ class Unit:
         self.fired = {}
         self.fnspecs = []
         self.assumption_notes = []
+        self.callee_panics = []
         self._parse(self.path, top=True)
 
     def _parse(self, path, top):
@@ -121,6 +122,12 @@ class Unit:
                         self._parse(os.path.join(CONTRACTS, arg), top=False)
                     elif word == 'assume':
                         self.assumption_notes.append(arg)
+                    elif word == 'callee_panics':
+                        # callee_panics name(p1, p2) unless <cond over self and p1..>
+                        mm = re.match(r'(\w+)\(([^)]*)\)\s+unless\s+(.*)$', arg)
+                        if not mm:
+                            raise ExtractError('bad callee_panics at %s:%d' % (rel, n))
+                        self.callee_panics.append((mm.group(1), [x.strip() for x in mm.group(2).split(',') if x.strip()], mm.group(3)))
                     elif word == 'fn':
                         cur = FnSpec()
                         parts = [p.strip() for p in arg.split('|')]
@@ -292,9 +299,10 @@ def _insert(lines, off, new_lines, base):
     raise ExtractError('insert offset out of range')
 
 
-def assemble(unit, index, expanded_name='expanded.rs', probe=None):
+def assemble(unit, index, expanded_name='expanded.rs', probe=None, lenient=False):
     """probe: None | 'start' | 'end' — add assert(false) vacuity probes to every extracted fn."""
     out = Assembled()
+    out.lost = []     # (fn, what) proof hints dropped in lenient mode
     fired = out.fired
     for kind, el in unit.elements:
         if kind == 'text':
@@ -389,11 +397,11 @@ def assemble(unit, index, expanded_name='expanded.rs', probe=None):
         loops = _loop_headers(bcode, 1, close)
         for ordinal, spec in fs.loops.items():
             if ordinal >= len(loops):
-                raise ExtractError('%s: loop %d not found (function has %d loops)' % (dn, ordinal, len(loops)))
+                if lenient:
+                    out.lost.append((dn, 'loop %d invariants (function has %d loops)' % (ordinal, len(loops))))
+                    continue
+                raise ExtractError('%s: loop %d not found (function has %d loops) (lost anchor)' % (dn, ordinal, len(loops)))
             inserts.append((loops[ordinal][1], 0, [Line(t, 'spec', dn, vf, vl, _clause_props(t, fs.props), norm_ws(t)) for (t, vf, vl) in spec]))
-        declared = set(fs.loops.keys())
-        if loops and len(declared) and max(declared) >= len(loops):
-            raise ExtractError('%s: loop count changed' % dn)
         stmts = _top_statements(bcode, 1, close)
         has_tail = bool(stmts) and not bcode[stmts[-1][0]:stmts[-1][1]].rstrip().endswith(';') and has_ret
         # a tail that is a block-like statement in a unit fn is not a tail expression
@@ -439,31 +447,64 @@ def assemble(unit, index, expanded_name='expanded.rs', probe=None):
             if m2:
                 k = int(m2.group(1))
                 if k >= len(loops):
-                    raise ExtractError('%s: loop %d not found' % (dn, k))
+                    raise ExtractError('%s: loop %d not found (lost anchor)' % (dn, k))
                 return loops[k][1] + 1
             m2 = re.match(r'loop_end\s+(\d+)$', anchor)
             if m2:
                 k = int(m2.group(1))
                 if k >= len(loops):
-                    raise ExtractError('%s: loop %d not found' % (dn, k))
+                    raise ExtractError('%s: loop %d not found (lost anchor)' % (dn, k))
                 return match_close(bcode, loops[k][1])
             m2 = re.match(r'after_loop\s+(\d+)$', anchor)
             if m2:
                 k = int(m2.group(1))
                 if k >= len(loops):
-                    raise ExtractError('%s: loop %d not found' % (dn, k))
+                    raise ExtractError('%s: loop %d not found (lost anchor)' % (dn, k))
                 return match_close(bcode, loops[k][1]) + 1
             raise ExtractError('%s: unknown anchor %s' % (dn, anchor))
         # inserts: (offset, order, lines); at equal offsets a larger `order` ends up later in the text
         order = 0
         for anchor, blk in fs.ats:
             order += 1
-            inserts.append((anchor_off(anchor), order, [Line(t, 'proof', dn, vf, vl, fs.props) for (t, vf, vl) in blk]))
+            try:
+                off = anchor_off(anchor)
+            except ExtractError as e:
+                if lenient:
+                    out.lost.append((dn, 'proof block at %s' % anchor))
+                    continue
+                raise
+            inserts.append((off, order, [Line(t, 'proof', dn, vf, vl, fs.props) for (t, vf, vl) in blk]))
         if fs.panic_frame:
             # every vpanic() in a &mut self method must be reached with self unchanged
             for m3 in re.finditer(r'\bvpanic\(\)', bcode):
                 inserts.append((m3.start(), 0, [Line('proof { assert(*self == *old(self)); } // panic leaves contents unchanged', 'gen', dn,
                                                      expanded_name, None, fs.props, 'panic-frame')]))
+        if fs.panic_frame:
+            for cname, cparams, ccond in unit.callee_panics:
+                for m4 in re.finditer(r'\bself\s*\.\s*' + re.escape(cname) + r'\s*\(', bcode):
+                    cp = match_close(bcode, m4.end() - 1, '(', ')')
+                    args = [a.strip() for a in _split_top(body[m4.end():cp])]
+                    if len(args) != len(cparams):
+                        raise ExtractError('%s: call of %s with %d arguments' % (dn, cname, len(args)))
+                    cond = ccond
+                    for pn, av in zip(cparams, args):
+                        cond = re.sub(r'\b' + re.escape(pn) + r'\b', '(' + av + ')', cond)
+                    # start of the enclosing statement
+                    k = m4.start()
+                    depth = 0
+                    while k > 0:
+                        ch = bcode[k - 1]
+                        if ch in ')]}':
+                            depth += 1
+                        elif ch in '([{':
+                            if depth == 0:
+                                break
+                            depth -= 1
+                        elif ch == ';' and depth == 0:
+                            break
+                        k -= 1
+                    inserts.append((k, 0, [Line('proof { assert((%s) || *self == *old(self)); } // a callee that may panic is entered with contents unchanged' % cond,
+                                                'gen', dn, expanded_name, None, fs.props, 'panic-frame')]))
         if probe == 'start':
             inserts.append((1, 10 ** 6, [Line('assert(false); // VACUITY-PROBE', 'probe', dn, fs.vcfile, fs.vcline)]))
         elif probe == 'end' and not fs.no_end_probe:
@@ -479,6 +520,25 @@ def assemble(unit, index, expanded_name='expanded.rs', probe=None):
                         'nloops': len(loops), 'vc': '%s:%d' % (fs.vcfile, fs.vcline)})
     # drop blank source lines to keep files readable (line map is per Line, so this is safe)
     out.lines = [l for l in out.lines if not (l.kind == 'src' and not l.text.strip())]
+    return out
+
+
+def _split_top(s):
+    out = []
+    depth = 0
+    cur = ''
+    for ch in s:
+        if ch in '([{':
+            depth += 1
+        elif ch in ')]}':
+            depth -= 1
+        if ch == ',' and depth == 0:
+            out.append(cur)
+            cur = ''
+        else:
+            cur += ch
+    if cur.strip():
+        out.append(cur)
     return out
 
 
